@@ -288,6 +288,7 @@ func gen(t *rapid.T) Case {
 	c := Case{}
 	c.IDP = idpkit.IDPConf{
 		Base:          rapid.SampledFrom([]string{"https://idp.example.com", "https://idp.example.com:8443/auth"}).Draw(t, "base"),
+		MetaSuffix:    rapid.SampledFrom([]string{"", "", "", "?tenant=acme", "?a=1&b=2", "#idp", "?t=1#x"}).Draw(t, "metasuffix"),
 		Signer:        rapid.Bool().Draw(t, "signer"),
 		StaleKey:      rapid.IntRange(0, 2).Draw(t, "stalekey") == 0,
 		SigMethod:     rapid.SampledFrom(idpkit.RSAMethods).Draw(t, "sigmethod"),
@@ -355,6 +356,7 @@ func gen(t *rapid.T) Case {
 	if rapid.IntRange(0, 2).Draw(t, "idp-reconfigure") == 0 {
 		then := idpkit.IDPConf{
 			Base:          rapid.SampledFrom([]string{c.IDP.Base, c.IDP.Base, "https://login.example.org/realms/r2"}).Draw(t, "then-base"),
+			MetaSuffix:    rapid.SampledFrom([]string{"", c.IDP.MetaSuffix, "?tenant=other"}).Draw(t, "then-metasuffix"),
 			KeyName:       rapid.SampledFrom([]string{"", "", "idp2"}).Draw(t, "then-key"),
 			Signer:        rapid.Bool().Draw(t, "then-signer"),
 			StaleKey:      rapid.IntRange(0, 2).Draw(t, "then-stalekey") == 0,
